@@ -470,7 +470,17 @@ class CodeBuilder:
 
                     allowed_keys_str = "'" + "', '".join(allowed_keys) + "'"
 
-                    self.add_line("d_keys = set(d.keys())")
+                    with self.indent("try:"):
+                        self.add_line("d_keys = set(d.keys())")
+                    with self.indent("except AttributeError:"):
+                        with self.indent("if not isinstance(d, dict):"):
+                            self.add_line(
+                                "raise ValueError('Argument for "
+                                f"{type_name(self.cls)}.{method_name} method "
+                                "should be a dict instance') from None"
+                            )
+                        with self.indent("else:"):
+                            self.add_line("raise")
                     self.add_line(
                         f"forbidden_keys = d_keys - {{{allowed_keys_str}}}"
                     )
